@@ -925,19 +925,9 @@ func init() {
 				r.Bad("front-end:"+on, "opcode exists", "opcode."+on+" not found")
 				continue
 			}
-			reach := (&PathQ{Fn: gf, Cut: []EdgeCut{specCut(func(v ssa.Value) bool { return resolveCell(v) == ssa.Value(gf.Params[0]) }, ov)}}).ReachableInstrs()
-			vals := map[int64]bool{}
-			for in := range reach {
-				ret, isRet := in.(*ssa.Return)
-				if !isRet || len(ret.Results) != 2 {
-					continue
-				}
-				if cv, ok := constOf(retOperand(ret, 1)); ok {
-					iv, _ := constant.Int64Val(constant.ToInt(cv))
-					vals[iv] = true
-				} else {
-					vals[-999] = true
-				}
+			vals, unknown := w.ConstResultsUnder(gf, 0, ov, 1, 2)
+			if unknown {
+				vals[-999] = true
 			}
 			r.Check(len(vals) == 1 && vals[byName[cn]], "front-end:"+on+"->"+cn, "SQL operator "+on+" becomes ComparisonType "+cn, "GetTypesForBOperationExpr returns {"+constNames(enum, vals)+"} for opcode."+on)
 		}
